@@ -21,7 +21,7 @@ from .gen_tables import gen_column, diff_frames, canon_cell, canon_series
 ASSUMPTIONS = ["text round trip of float / timestamp partition values (repr, isoformat, pandas parsing) is outside the Lean model: exercised here",
                "pandas groupby(sort=True) orders groups by key"]
 
-PK = ["int", "int_neg", "float", "bool", "dt", "dt_sub", "str", "str_num", "cat", "int_null", "int_big", "int_bigneg", "cat_num"]
+PK = ["int", "int_neg", "float", "bool", "dt", "dt_sub", "str", "str_num", "cat", "int_null", "int_big", "int_bigneg", "cat_num", "str_mixed"]
 
 
 def part_col(rng, kind, n):
@@ -50,6 +50,11 @@ def part_col(rng, kind, n):
         return pd.Series([rng.choice(["a", "bb", "Paris", "é"]) for _ in range(n)], dtype=object)
     if kind == "str_num":
         return pd.Series([rng.choice(["1", "2", "0.7", "x1"]) for _ in range(n)], dtype=object)
+    if kind == "str_mixed":
+        # text keys of which some look like an integer, a float, a boolean and some like nothing else: in the drill layout there is no
+        # type information, and 1 / True / 1.0 are equal as Python values - the key TEXT must still come back for every row
+        pool = ["1", "x", "0.7", "True", "y"]
+        return pd.Series([pool[i] if i < len(pool) else rng.choice(pool) for i in range(n)], dtype=object)
     if kind == "cat":
         cats = ["lo", "mid", "hi", "unused"]
         return pd.Series(pd.Categorical([rng.choice(cats[:3]) for _ in range(n)], categories=cats))
@@ -74,12 +79,14 @@ def run(ctx, report):
             kinds = [PK[d]] + kinds[1:]
         elif d == len(PK):
             kinds, scheme = ["int", "int", "str_num"], "hive"      # the same value text under several partition columns
-        if scheme == "drill" and d < len(PK) and PK[d] not in ("int", "int_neg", "bool", "str", "cat", "int_bigneg"):
+        elif d == len(PK) + 1:
+            kinds, scheme = ["str_mixed"], "drill"                 # directory names of mixed kinds, no type information
+        if scheme == "drill" and d < len(PK) and PK[d] not in ("int", "int_neg", "bool", "str", "cat", "int_bigneg", "str_mixed"):
             scheme = "hive"          # every key kind is exercised at least once (drill only carries plain keys)
         if scheme == "drill":
-            kinds = [k for k in kinds if k in ("int", "int_neg", "bool", "str", "cat", "int_bigneg")] or ["int"]
+            kinds = [k for k in kinds if k in ("int", "int_neg", "bool", "str", "cat", "int_bigneg", "str_mixed")] or ["int"]
         n = rng.choice([1, 6, 15, 30])
-        if d <= len(PK):
+        if d <= len(PK) + 1:
             n = max(n, 6)       # the directed datasets hold several keys
         df = pd.DataFrame({"rid": np.arange(n, dtype="int64")})
         vk = rng.sample(["float_nan", "str", "int32", "Int64", "dt_ns"], 2)
